@@ -61,32 +61,18 @@ var sortSets = [...]sortSet{
 }
 
 func ByContextualEx(fallbackSort NameSorter) NameSorter {
-	var set sortSet
-	fallback := false
-
+	// Decided by the two keys alone (no state between comparisons, so the order never depends
+	// on which pair is compared first): keys outside every set come first, then each set in
+	// turn by position; the fallback orders the rest and breaks ties (mon, Monday)
 	return func(a, b string) bool {
-		if !fallback && set == nil {
-			set = inferSortSetByValue(a)
-			if set == nil {
-				fallback = true
-			}
+		s0, v0 := lookupSortSet(a)
+		s1, v1 := lookupSortSet(b)
+		if s0 != s1 {
+			return s0 < s1
 		}
-
-		// Try using the set
-		if !fallback {
-			lowerA := strings.ToLower(a)
-			lowerB := strings.ToLower(b)
-			v0, ok0 := set[lowerA]
-			v1, ok1 := set[lowerB]
-			if !ok0 || !ok1 {
-				fallback = true
-			} else if v0 != v1 {
-				return v0 < v1
-			}
-			// Same position (mon, Monday): the fallback breaks the tie
+		if v0 != v1 {
+			return v0 < v1
 		}
-
-		// Fallback
 		return fallbackSort(a, b)
 	}
 }
@@ -95,12 +81,13 @@ func ByContextual() NameSorter {
 	return ByContextualEx(ByNameSmart)
 }
 
-func inferSortSetByValue(val string) sortSet {
+// Index of the sort set that contains val (-1 if none) and its position in that set
+func lookupSortSet(val string) (int, int) {
 	val = strings.ToLower(val)
-	for _, set := range sortSets {
-		if _, ok := set[val]; ok {
-			return set
+	for i, set := range sortSets {
+		if v, ok := set[val]; ok {
+			return i, v
 		}
 	}
-	return nil
+	return -1, 0
 }
